@@ -1226,3 +1226,129 @@ Proof.
   - now rewrite M.
   - intros m I. apply (proj1 (in_sort_by snd lms m)) in I. unfold xv. now rewrite (VS m I).
 Qed.
+
+(* ------------------------------------------------------------------ stripping nulls commutes with prune / merge *)
+Lemma strip_obj : forall l, strip (Obj l) = Obj (purge_list l).
+Proof. intros l. unfold strip. now rewrite purge_obj. Qed.
+
+Lemma value_at_nonnull_node : forall q c x, value_at q c = Some x -> x <> Null -> c <> Null.
+Proof. intros q c x V N ->. destruct q; cbn in V; [injection V as <-; congruence|discriminate]. Qed.
+
+Lemma prune_res_nonnull : forall s o t, prune s o = Some (Some t) -> t <> Null.
+Proof.
+  intros [|k q] o t P; [discriminate|]. destruct o as [[| z | l]|]; try discriminate.
+  rewrite prune_unfold in P. destruct (lookup k l) as [c|]; [|discriminate].
+  destruct (prune q (Some c)) as [nv|]; [|discriminate].
+  destruct nv; cbv beta iota zeta in P;
+    [destruct (aset k t0 l)|destruct (aremove k l)]; try discriminate; injection P as <-; discriminate.
+Qed.
+
+(* A': pruning a suffix of v, and merging the STRIPPED part back into the STRIPPED remainder, gives the stripped v *)
+Lemma prune_merge_strip : forall sf v x r, wf_tree v = true -> value_at sf v = Some x -> x <> Null ->
+  prune sf (Some v) = Some r ->
+  match r with
+  | Some rest => merge (nest sf (strip x)) (strip rest) = Some (strip v)
+  | None => nest sf (strip x) = strip v
+  end.
+Proof.
+  induction sf as [|k q IH]; intros v x r W V N P.
+  - cbn in V, P. injection V as <-. injection P as <-. reflexivity.
+  - destruct v as [| z | l]; try discriminate. cbn [value_at] in V. rewrite prune_unfold in P.
+    destruct (lookup k l) as [c|] eqn:EL; [|discriminate].
+    pose proof W as W'. apply wf_obj in W'. destruct W' as [S _].
+    assert (Wc : wf_tree c = true) by (eapply wf_lookup; eauto).
+    assert (Nc : c <> Null) by (eapply value_at_nonnull_node; eauto).
+    destruct (prune q (Some c)) as [nv|] eqn:PQ; [|discriminate]. specialize (IH c x nv Wc V N PQ).
+    cbn [nest]. rewrite (strip_obj l).
+    assert (PUT : forall l0, sorted (map fst l0) = true -> (forall j, j <> k -> lookup j l0 = lookup j l) ->
+                  aset k (strip c) (purge_list l0) = purge_list l).
+    { intros l0 S0 E0. apply assoc_ext; [apply sorted_aset, sorted_purge_list, S0|now apply sorted_purge_list|].
+      intros j. rewrite lookup_aset, !lookup_purge_list by assumption. destruct (j =? k) eqn:E.
+      - assert (j = k) by lia; subst j. rewrite EL. symmetry. now apply strip_some.
+      - rewrite E0 by lia. reflexivity. }
+    destruct nv as [c'|].
+    + revert P. cbv beta iota zeta. destruct (aset k c' l) as [|e l1] eqn:EA; intros P.
+      { pose proof (lookup_aset_eq l k c') as X. rewrite EA in X. discriminate. }
+      injection P as <-. rewrite <- EA. rewrite strip_obj, merge_single.
+      assert (Nc' : c' <> Null) by (eapply prune_res_nonnull; eauto).
+      rewrite lookup_purge_list by (now apply sorted_aset). rewrite lookup_aset_eq, (strip_some c' Nc'), IH.
+      f_equal. f_equal. apply PUT; [now apply sorted_aset|]. intros j NE. now rewrite lookup_aset_neq.
+    + revert P. cbv beta iota zeta. destruct (aremove k l) as [|e l1] eqn:ER; intros P.
+      * injection P as <-. f_equal. rewrite IH. rewrite <- (PUT [] eq_refl); [reflexivity|].
+        intros j NE. pose proof (lookup_aremove l k j) as X. rewrite ER in X. cbn in X.
+        destruct (j =? k) eqn:E; [lia|exact X].
+      * injection P as <-. rewrite <- ER. rewrite strip_obj, merge_single.
+        rewrite lookup_purge_list by (now apply sorted_aremove). rewrite lookup_aremove, N.eqb_refl, IH.
+        f_equal. f_equal. apply PUT; [now apply sorted_aremove|]. intros j NE. rewrite lookup_aremove.
+        destruct (j =? k) eqn:E; [lia|reflexivity].
+Qed.
+
+(* D': if pruning pairwise diverging suffixes with non-null parts uses the value up, then merging the STRIPPED parts,
+   last pruned first, gives the STRIPPED value *)
+Lemma prune_all_merge_strip : forall L cur, wf_tree cur = true -> pw_div L ->
+  (forall s, In s L -> exists x, value_at s cur = Some x /\ x <> Null) ->
+  fold_left prune_step L (Some (Some cur)) = Some None ->
+  merge_all (map (fun s => nest s (strip (xv cur s))) (rev L)) = Some (Some (strip cur)).
+Proof.
+  induction L as [|s L' IH]; intros cur W PW VA F; [discriminate|].
+  cbn [fold_left prune_step] in F. destruct (prune s (Some cur)) as [r|] eqn:P; [|now rewrite prune_fold_none in F].
+  destruct (VA s (or_introl eq_refl)) as (x & Vs & Nx).
+  pose proof (prune_merge_strip s cur x r W Vs Nx P) as A. destruct PW as [PWs PW'].
+  destruct L' as [|s2 L2].
+  - cbn in F. injection F as ->. cbn. unfold xv. rewrite Vs. now rewrite A.
+  - remember (s2 :: L2) as L1 eqn:EL1. assert (I2 : In s2 L1) by (rewrite EL1; now left).
+    assert (B : forall s', In s' L1 -> exists rest, r = Some rest /\ value_at s' rest = value_at s' cur).
+    { intros s' I. destruct (VA s' (or_intror I)) as (x' & V' & _).
+      destruct (prune_other s s' cur r x' (PWs s' I) P V') as (rest & -> & V2). rewrite V'. eauto. }
+    destruct (B s2 I2) as (rest & -> & _).
+    assert (B' : forall s', In s' L1 -> value_at s' rest = value_at s' cur).
+    { intros s' I. destruct (B s' I) as (rest' & E & V2). now injection E as <-. }
+    assert (IH' : merge_all (map (fun s0 => nest s0 (strip (xv rest s0))) (rev L1)) = Some (Some (strip rest))).
+    { apply IH; [eapply prune_wf; eauto|exact PW'| |exact F].
+      intros s' I. rewrite (B' s' I). apply VA. now right. }
+    cbn [rev]. rewrite map_app. unfold merge_all in *. rewrite fold_left_app.
+    rewrite (map_ext_in (fun s0 => nest s0 (strip (xv cur s0))) (fun s0 => nest s0 (strip (xv rest s0))) (rev L1)).
+    + rewrite IH'. cbn. unfold xv at 1. rewrite Vs, A. reflexivity.
+    + intros s' I. apply in_rev in I. unfold xv. now rewrite (B' s' I).
+Qed.
+
+(* Get of the same request with nulls inside the written parts returns v with the nulls stripped - no extra hypothesis *)
+Theorem view_read_after_write_same_request_strip : forall rules req v ws lms t b,
+  set_writes rules req v = (ROk, ws) -> Forall is_set ws ->
+  matches readable rules req = matches writeable rules req ->
+  literal_matches (matches writeable rules req) = Some lms ->
+  (forall ws1 d ws2, ws = ws1 ++ d :: ws2 -> forall d', In d' ws2 -> is_prefix (fst d) (fst d') = false) ->
+  apply_deltas (tx_pristine t) (tx_deltas t) = Some b ->
+  wf_tree v = true ->
+  NoDup (map snd (sort_by snd lms)) ->
+  (forall s s', In s (map snd lms) -> In s' (map snd lms) -> s = s' \/ diverge s s' = true) ->
+  view_get rules (tx_get (add_deltas t ws)) req = VOk (strip v).
+Proof.
+  intros rules req v ws lms t b H F MRW EL NP AD W ND PD.
+  rewrite (view_read_after_write_merge rules req v ws lms t b H F MRW EL NP AD).
+  destruct (set_writes_facts _ _ _ _ _ H EL) as [U VA].
+  destruct (set_writes_ws _ _ _ _ H) as (lms' & EL' & Ews). rewrite EL in EL'. injection EL' as <-.
+  assert (NN : forall m, In m lms -> xval v m <> Null).
+  { intros m I. rewrite Forall_forall in F. apply (proj2 (in_sort_by fst lms m)) in I.
+    assert (X : In (fst m, xval v m) ws) by (rewrite Ews; exact (in_map (fun m0 : lmatch => (fst m0, xval v m0)) _ m I)).
+    destruct (F _ X) as [N _]. exact N. }
+  set (S := map snd (sort_by snd lms)) in *.
+  assert (INS : forall s, In s S -> exists m, In m lms /\ snd m = s).
+  { intros s I. apply in_map_iff in I. destruct I as (m & E & I). apply (proj1 (in_sort_by snd lms m)) in I.
+    exists m. split; assumption. }
+  rewrite dedup_nodup in U by exact ND. unfold unused_check in U.
+  assert (FL : fold_left prune_step (rev S) (Some (Some v)) = Some None).
+  { change (fold_left prune_step (rev S) (Some (Some v))) with
+      (fold_left (fun acc sf => match acc with Some cur => prune sf cur | None => None end) (rev S) (Some (Some v))).
+    destruct (fold_left _ (rev S) (Some (Some v))) as [[?|]|]; try discriminate. reflexivity. }
+  assert (M : merge_all (map (fun s => nest s (strip (xv v s))) (rev (rev S))) = Some (Some (strip v))).
+  { apply prune_all_merge_strip; [exact W| | |exact FL].
+    - apply pw_from; [now apply NoDup_rev|]. intros s s' I I'. apply in_rev in I. apply in_rev in I'.
+      destruct (INS s I) as (m & Im & <-). destruct (INS s' I') as (m' & Im' & <-).
+      apply PD; now apply in_map.
+    - intros s I. apply in_rev in I. destruct (INS s I) as (m & Im & <-).
+      specialize (VA m Im). specialize (NN m Im). unfold xval in NN.
+      destruct (value_at (snd m) v) as [x|]; [|congruence]. eauto. }
+  rewrite rev_involutive in M. unfold S in M. rewrite map_map in M.
+  unfold xv in M. unfold xval. rewrite M. reflexivity.
+Qed.
